@@ -114,6 +114,10 @@ pub fn decidable(
     first_cache: &FirstCache,
     follow_cache: &FollowCache,
 ) -> Result<usize> {
+    if max_k > MAX_K {
+        // The caches provide entries for k = 0..=MAX_K only
+        bail!("Maximum lookahead is {}", MAX_K);
+    }
     let cfg = &grammar_config.cfg;
     let productions = cfg.matching_productions(non_terminal);
     if productions.is_empty() {
